@@ -410,3 +410,30 @@ theorem C02.compose_nonvacuous :
   C02.compose 4 (fun i _ j => (i = 0 ∧ (j = 1 ∨ j = 2)) ∨ ((i = 1 ∨ i = 2) ∧ j = 3))
     (fun _ => True) (fun _ _ => True)
     (by intro i k j h; omega) (by intro i k j h; omega) (fun _ _ _ => trivial) (fun _ _ _ => trivial)
+
+/-! ### `Tracer.Drop` (the end of a backward loop whose writer's channel closed) -/
+
+/-- is the event `reader.Receive(New(ErrDroppedPacket))` on reader `r`? -/
+def isDroppedReply (r : Rid) : Ev → Bool
+  | .reply r' (.pay (.err [0])) => r' == r
+  | _ => false
+
+/-- `Tracer.Drop(writer)` on a concrete one-to-one flight: two requests read from reader 0, each
+linked to a derived packet written to (and accepted by) writer 1, no response yet.  When writer
+1's channel closes, `Drop` answers both requests, in read order, with the dropped packet error and
+leaves all seven maps empty – exactly what two `Receive(writer, dropped)` calls would have done
+(second conjunct), had the writer pump not discarded the two responses. -/
+theorem C02.drop_answers_pending :
+    let t : T := (write true (link (read (write true (link (read {} 0 1) 1 11) (some 1) 11 (.pay (.atom 5)) true).1 0 2) 2 12)
+                    (some 1) 12 (.pay (.atom 6)) true).1
+    getL t.writes 1 = [11, 12] ∧
+    ((dropW true t 1).2.map (isDroppedReply 0)) = [true, true] ∧ isEmpty (dropW true t 1).1 = true ∧
+    (let r1 := receiveW true t 1 (some Ans.dropped)
+     let r2 := receiveW true r1.1 1 (some Ans.dropped)
+     ((r1.2 ++ r2.2).map (isDroppedReply 0)) = [true, true] ∧ isEmpty r2.1 = true) := by
+  decide
+
+/-- `Drop` on a writer nothing is pending on does nothing. -/
+theorem C02.drop_nothing_pending (strict : Bool) (t : T) (w : Wid) (h : aget t.writes w = none) :
+    (dropW strict t w).2 = [] ∧ (dropW strict t w).1 = { t with writes := adel t.writes w } := by
+  simp [dropW, getL, h, dropLoop]
